@@ -289,5 +289,30 @@ def fd_program(rng, nvars, ncons, lo, hi, n_eq=1):
         elif nvars >= 2:
             a, b = rng.sample(vs, 2)
             goals.append(["eq", ["list", [var(a), var(b)]], ["list", [var(b), ["num", rng.randint(lo, hi)]]]])
+    # now and then a second domain for a variable that already has one (interval vs sparse)
+    if rng.random() < 0.35:
+        goals.append(["dom", var(rng.choice(vs)), fd_domain(rng, lo, hi)])
     rng.shuffle(goals)
     return goals
+
+
+def fd_collapse_program(rng):
+    """Sparse two/three-value domains with wide gaps: bounds propagation alone often decides every
+    variable (no labelling unification follows), which is where a stale or missing re-check of a
+    propagator shows up in the answers."""
+    nv = rng.randint(2, 3)
+    vs = list(range(1, nv + 1))
+    goals = []
+    for v in vs:
+        k = rng.randint(2, 3)
+        goals.append(["dom", var(v), ["vec", sorted(rng.sample(range(-20, 21), k))]])
+    kind = rng.choice(["plusfd", "minusfd", "timesfd", "plusfd", "minusfd"])
+    ops = [var(v) for v in vs]
+    while len(ops) < 3:
+        ops.insert(rng.randint(0, len(ops)), ["num", rng.randint(-12, 12) if kind != "timesfd" else rng.randint(-4, 4)])
+    rng.shuffle(ops)
+    goals.append([kind] + ops)
+    if rng.random() < 0.3:
+        goals.append(fd_constraint(rng, vs, -3, 3))
+    rng.shuffle(goals)
+    return goals, nv
